@@ -48,7 +48,7 @@ def marker_fn(val):
 
 def value_for(role, scope_val, dotted=0):
     """Object bound to the name in a scope."""
-    if role in ("arg", "bqarg", "kwarg", "nested"):
+    if role in ("arg", "bqarg", "kwarg", "nested", "dotarg"):
         return scope_val
     fn = marker_fn(scope_val)
     if dotted == 1:
@@ -71,6 +71,8 @@ def run_config(cfg):
         formula = f"y ~ 0 + fmc_probe(v={name})"
     elif role == "nested":
         formula = f"y ~ 0 + fmc_probe(fmc_ident({name}))"
+    elif role == "dotarg":
+        formula = f"y ~ 0 + fmc_probe({name})"
     elif role == "bqarg":
         formula = f"y ~ 0 + fmc_probe(`{name}`)"
     else:
@@ -94,6 +96,8 @@ def run_config(cfg):
     fns = []
     for i in range(depth_total):
         g = {"__builtins__": __builtins__, "design_matrices": design_matrices, "_holder": holder}
+        if role == "dotarg":  # an object whose attribute spells the rest of the name: a dotted *argument* is a plain key, not attribute access
+            g[name.split(".")[0]] = types.SimpleNamespace(**{name.split(".")[1]: 77.0})
         lines = [f"def f{i}(nxt):"]
         target = i == k
         loc_def = ("local" in subset) if target else True
@@ -124,7 +128,7 @@ def run_config(cfg):
 
 def expected(cfg):
     role, subset, name = cfg["role"], cfg["subset"], cfg["name"]
-    order = ["data", "builtin", "local", "global", "extra"] if role in ("arg", "bqarg", "kwarg", "nested") else ["builtin", "local", "global", "extra"]
+    order = ["data", "builtin", "local", "global", "extra"] if role in ("arg", "bqarg", "kwarg", "nested", "dotarg") else ["builtin", "local", "global", "extra"]
     defined = set(subset)
     if name in ("scale", "Sum"):
         defined.add("builtin")
@@ -160,6 +164,7 @@ def configs():
         subq = [list(c) for n in range(4) for c in itertools.combinations(["data", "global", "extra"], n)]
         for sub in subq:
             out.append({"role": "bqarg", "name": "my var", "k": k, "subset": sub})
+            out.append({"role": "dotarg", "name": "ob.w", "k": k, "subset": sub})
     return out
 
 
